@@ -529,6 +529,21 @@ def check(ctx):
         ctx.ob('C17.2', sd, node, ok,
                'a node is deleted only when its owner session is the '
                "client's")
+    # ... and it is that node: the path deleted is the path whose owner was
+    # read (a parent, or anything else derived from it, was never checked
+    # and may hold the nodes of another session by the time it is deleted)
+    read_paths = set(
+        N.txt(c.args[-1]) for c in K.calls(sd.node)
+        if K.callee_text(c).endswith('get_with_metadata') and c.args)
+    for node in dels:
+        for call in C.node_calls(node):
+            if not _is_zk_write(call) or not call.args:
+                continue
+            target = N.txt(call.args[-1]) if K.callee_text(call).startswith(
+                'zkutils.') else N.txt(call.args[0])
+            ctx.ob('C17.2', sd, node, target in read_paths,
+                   'the node deleted is the one whose owner was read (%s)'
+                   % target, construct='delete target = verified path')
     # ---- C17.3 ---------------------------------------------------------
     count = 0
     for func in svc.live_methods():
@@ -723,6 +738,21 @@ def check(ctx):
         ctx.ob('C17.5', uns, node, ok,
                "/scheduled is deleted only while this host's placement "
                'node exists')
+    # OWNER: in this module /scheduled/<instance> is deleted by _unschedule
+    # alone (a terminal event that is replayed after the scheduler moved the
+    # instance must not unschedule it on behalf of its new host)
+    for func in tz.live_functions():
+        for call in K.calls(func.node):
+            if not ('ensure_deleted' in N.txt(call) or
+                    K.is_meth(call, 'delete')):
+                continue
+            if not any('path.scheduled(' in K.rtxt(func, a)
+                       for a in call.args):
+                continue
+            ctx.ob('C17.5', func, call, func is uns,
+                   '/scheduled/<instance> is deleted only by _unschedule '
+                   '(found in %s)' % func.qualname,
+                   construct='owner of the /scheduled delete')
 
 
 _P = 'lib/python/treadmill/services/presence_service.py'
